@@ -36,7 +36,7 @@ theorem campaign_iff_absent (s : St) (i : Nat) (c : Cont) (l : Lease) (extra : L
 
 /-- **(a) campaign_iff_absent**, whole `Campaign` call (Grant succeeds: the lease is fresh and live) -/
 theorem campaign_whole_iff_absent (s : St) (i : Nat) (c : Cont) (ttl : Nat) (extra : List Cmp) (f : Fault) (rv : Bool)
-    (hc : s.conts[i]? = some c) (hp : c.pending = none) (httl : ttl ≤ maxLeaseTTL) :
+    (hc : s.conts[i]? = some c) (hp : c.pending = none) (hcl : c.closing = none) (httl : ttl ≤ maxLeaseTTL) :
     let r := step s (.on i (.campaign ttl extra f rv))
     (r.2 = .ok ↔ f = .none ∧ s.etcd.kv (.leader c.key) = none ∧ extra.all s.etcd.holds = true) ∧
     (r.2 = .ok → r.1.etcd.kv (.leader c.key) = some ⟨c.member, s.etcd.granted + 1⟩) := by
@@ -52,7 +52,7 @@ theorem campaign_whole_iff_absent (s : St) (i : Nat) (c : Cont) (ttl : Nat) (ext
   have e2 : loc ⟨s.etcd, s.stamp, c⟩ (.campaign ttl extra f rv) =
       campaignTxn (grantStep ⟨s.etcd, s.stamp, c⟩ ttl extra).1
         { id := s.etcd.granted + 1, ttl := ttl, expire := .at (c.clock + ttl) } extra f rv := by
-    simp [loc, hp, hx1, finishStep]
+    simp [loc, hp, hcl, hx1, finishStep]
   simp only [r, step_snd, step_etcd, e, e2]
   have hall : extra.all (Etcd.holds s.etcd.grant.1) = extra.all s.etcd.holds := by
     congr 1
@@ -113,12 +113,14 @@ theorem cannot_extend_lost_window (s : St) (i : Nat) (c : Cont) (w : WKind) (f :
   have := (rejected_write_unchanged s i c w f hc hown).1
   simp only [s', this, and_self]
 
-/-- **resigned_serves_nothing** – after `Reset`, a step-down, a successful `DeleteLeaderKey` or a
+/-- **resigned_serves_nothing** – after `Reset` (also while it is still waiting inside `lease.Close` for the
+    Revoke request or its answer: `gresetl`), a step-down, a successful `DeleteLeaderKey` or a
     `CheckLeader` that deleted the member's own record, `Check()` is false, hence no timestamp is
     granted and `IsLeader` is false; for every state, every clock -/
 theorem resigned_serves_nothing (s : St) (i : Nat) (c : Cont) (a : LOp) (hc : s.conts[i]? = some c)
     (hp : c.pending = none)
-    (ha : (∃ rv, a = .resetl rv) ∨ (∃ rv, a = .stepdown rv) ∨
+    (ha : (∃ rv, a = .resetl rv) ∨ (∃ pre leader, a = .gresetl pre leader ∧ c.closing = none) ∨
+          (∃ rv, a = .stepdown rv) ∨
           (∃ f rv, a = .delkey f rv ∧ (step s (.on i a)).2 = .ok) ∨
           (a = .observe ∧ (step s (.on i a)).2 = .deleted)) :
     ∀ c', (step0 s (.on i a)).1.conts[i]? = some c' →
@@ -134,8 +136,10 @@ theorem resigned_serves_nothing (s : St) (i : Nat) (c : Cont) (a : LOp) (hc : s.
   simp at hc'
   subst hc'
   have goal : (loc ⟨s.etcd, s.stamp, c⟩ a).1.c.check = false := by
-    rcases ha with ⟨rv, rfl⟩ | ⟨rv, rfl⟩ | ⟨f, rv, rfl, hok⟩ | ⟨rfl, hok⟩
+    rcases ha with ⟨rv, rfl⟩ | ⟨pre, leader, rfl, hcl⟩ | ⟨rv, rfl⟩ | ⟨f, rv, rfl, hok⟩ | ⟨rfl, hok⟩
     · simp [loc, hp, resetStep_check]
+    · simp only [loc, hp, hcl, Option.isSome_none, Bool.or_self, Bool.false_eq_true, if_false]
+      cases hl : c.lease <;> simp [Cont.check, hl, Expire.expiredAt]
     · simp [loc, hp, resetStep_check]
     · simp only [step_snd, e, loc, hp] at hok ⊢
       simp only [Option.isSome_none, Bool.false_eq_true, if_false] at hok ⊢
@@ -395,7 +399,7 @@ theorem guarded_write_structure :
     idRebaseLeaderPath = true ∧
     saveKeysGuarded = true := by decide
 
-/-- the service paths refuse when `Check()` / `IsLeader()` is false: GenerateTSO (global and local) checks first, getTS re-checks after generating, resetUserTimestamp checks, rotateKeyIfNeeded checks, validateRequest requires IsLeader, AllocID validates before allocating, IsLeader = Check ∧ cache -/
+/-- the service paths refuse when `Check()` / `IsLeader()` is false: GenerateTSO (global and local) checks first, getTS re-checks after generating, resetUserTimestamp checks, rotateKeyIfNeeded checks, validateRequest requires IsLeader, AllocID validates before allocating, the region-heartbeat stream validates every received message (before the stream re-bind block) and the store heartbeat validates before it is handled, IsLeader = Check ∧ cache -/
 theorem service_guard_structure :
     isLeaderIsCheckAndCache = true ∧
     getTSRechecksLeadership = true ∧
@@ -405,7 +409,9 @@ theorem service_guard_structure :
     rotateChecksLeadershipFirst = true ∧
     validateRequestRequiresLeader = true ∧
     allocIDValidatesFirst = true ∧
-    dcLocationInfoRequiresLeader = true := by decide
+    dcLocationInfoRequiresLeader = true ∧
+    regionHeartbeatValidatesEveryMessage = true ∧
+    storeHeartbeatValidatesFirst = true := by decide
 
 /-- the call order assumed of the leader loop (`Spec.C03.Act`): keep-alive, TSO initialisation and EnableLeader only after a successful CampaignLeader; the step-down cancels the keep-alive, resets the leadership, unsets the leader cache and resets the TSO memory; CheckLeader deletes the record only when it names the member itself; WatchLeader sets, watches, unsets -/
 theorem leader_loop_structure :
